@@ -63,11 +63,16 @@ func newTemplateChecker(reg template.Registry, tpl template.Template) *templateC
 func (tc *templateChecker) checkTemplate(node ast.Node) {
 	switch node := node.(type) {
 	case *ast.LetValueNode:
+		// the variable is defined after its value has been evaluated.
 		tc.checkLet(node.Name)
+		tc.recurse(node)
 		tc.letVars = append(tc.letVars, node.Name)
+		return
 	case *ast.LetContentNode:
 		tc.checkLet(node.Name)
+		tc.recurse(node)
 		tc.letVars = append(tc.letVars, node.Name)
+		return
 	case *ast.CallNode:
 		tc.checkCall(node)
 	case *ast.ForNode:
